@@ -208,6 +208,10 @@ void EGLPNUM_TYPENAME_init_internal_lpinfo (
 	lp->pIxbz = 0;
 	lp->pIpiz = 0;
 	lp->pIdz = 0;
+	/* nothing is known about a problem that has not been solved yet */
+	init_lp_status_info (&(lp->basisstat));
+	lp->final_phase = -1;
+	lp->infub_ix = -1;
 	lp->vtype = 0;
 	lp->vclass = 0;
 	lp->iwork = 0;
